@@ -101,6 +101,14 @@ def _run(fn, g, clock, *args):
                    observed={"tail": tail}, bucket="malformed: " + str(e).split(":")[0][:40])
 
 
+def _estimates(out, what):
+    """Estimate records of an edited file; a line the strict parser cannot read is a malformed file, i.e. a violation."""
+    try:
+        return SX.parse_estimates(out["blocks"].get("SOLUTION/ESTIMATE", []))
+    except SX.Malformed as e:
+        raise Fail("%s: SOLUTION/ESTIMATE block is malformed: %s" % (what, e), bucket=what + " estimates malformed")
+
+
 def _spec(case):
     spec = dict(case["spec"])
     n = len(SX.records(spec))
@@ -168,7 +176,7 @@ def _check_removal(case, spec, g, inp_lines, remove_codes, clock):
                        expected=want[:6], observed=out["blocks"][name][:6], bucket=name + " lines")
     # estimates
     est_in = SX.parse_estimates(inp["blocks"]["SOLUTION/ESTIMATE"])
-    est_out = SX.parse_estimates(out["blocks"]["SOLUTION/ESTIMATE"])
+    est_out = _estimates(out, "remove_stns_sinex")
     want_rest = [est_in[i]["rest"] for i in keep]
     if [e["rest"] for e in est_out] != want_rest:
         raise Fail("remove_stns_sinex: estimates are not exactly the remaining stations' estimates in their original order",
@@ -242,7 +250,7 @@ def check_remove_velocity(case):
     recs = SX.records(spec)
     keep = [i for i, r in enumerate(recs) if r["type"].startswith("STA")]
     est_in = SX.parse_estimates(inp["blocks"]["SOLUTION/ESTIMATE"])
-    est_out = SX.parse_estimates(out["blocks"].get("SOLUTION/ESTIMATE", []))
+    est_out = _estimates(out, "remove_velocity_sinex")
     if [e["rest"] for e in est_out] != [est_in[i]["rest"] for i in keep]:
         raise Fail("remove_velocity_sinex: estimates are not exactly the position estimates", expected=[est_in[i]["rest"] for i in keep][:4],
                    observed=[e["rest"] for e in est_out][:4], bucket="velocity estimates content")
@@ -526,7 +534,7 @@ def check_edit_program(case):
             if SX.data(out["blocks"].get(name, [])) != want:
                 raise Fail("%s: %s block is not the original block minus the removed stations" % (where, name), expected=want[:6],
                            observed=out["blocks"].get(name, [])[:6], bucket="program " + name)
-        est = SX.parse_estimates(out["blocks"].get("SOLUTION/ESTIMATE", []))
+        est = _estimates(out, where)
         if [e["rest"] for e in est] != [est0[i]["rest"] for i in keep]:
             raise Fail("%s: estimates are not exactly the surviving estimates of the original solution, in order" % where,
                        expected=[est0[i]["rest"] for i in keep][:4], observed=[e["rest"] for e in est][:4], bucket="program estimates content")
